@@ -1731,8 +1731,9 @@ def _compare_bytes(ctx, op, data0, data1, mode, gids, diag):
                 ctx.violation(dict({"kind": "render", "op": op, "oracle": "t2ref-bytes", "field": "arity" if e.startswith("arity") else "format", "error": e}, **diag(g, g)),
                               "%s: glyph %d of the rewritten table violates the format: %s" % (op, g, [x for x in a.errors if _errclass(x) == e][:3]), w)
             if a.max_stack > lim1 and b.max_stack <= lim0:
-                ctx.violation(dict({"kind": "render", "op": op, "oracle": "t2ref-bytes", "field": "stack"}, **diag(g, g)),
-                              "%s: glyph %d operand stack depth %d exceeds %d" % (op, g, a.max_stack, lim1), w)
+                # same mechanism field as FreeType's refusal of an over-deep charstring
+                ctx.violation(dict({"kind": "render", "op": op, "oracle": "t2ref-bytes", "field": "rejected"}, **diag(g, g)),
+                              "%s: glyph %d operand stack depth %d at %s exceeds %d" % (op, g, a.max_stack, a.max_stack_op, lim1), w)
 
 
 def _compare_fonts(ctx, op, data0, data1, mode, rnd, gids=None):
